@@ -144,3 +144,14 @@ package keeper
 //@   ensures success.noop: !called((Keeper).refundPacketToken) ==> mtBal == old(mtBal) && mtSupply == old(mtSupply) && err == nil
 //@   ensures refund.only_on_error: called((Keeper).refundPacketToken) ==> isErrorAck(ack)
 //@   ensures error.refunds: isErrorAck(ack) ==> ncalls((Keeper).refundPacketToken) == 1 && (forall c in calls((Keeper).refundPacketToken) :: c.data == data && c.err == err)
+//@
+//@ func (Keeper).MtTransfer(goCtx, msg) (resp, err)
+//@   props C09 C19
+//@   modifies tibc, events, mtBal, mtSupply
+//@   requires nowrap: packetkeeper.nextSendVal(tibc[nextSend(clientkeeper.selfName(tibc), msg.DestChain)]) <u MAXU64
+//@   requires native.ids: mtDenom[mtd(msg.Class)] && !hasprefix(msg.Class, "tibc-") ==> !contains(msg.Class, "/")
+//@   ensures send.once:  ncalls((Keeper).SendMtTransfer) <= 1 && (forall c in calls((Keeper).SendMtTransfer) :: c.class == msg.Class && c.id == msg.Id && c.amount == msg.Amount &&
+//@                          str(c.sender) == bech32dec(msg.Sender) && c.receiver == msg.Receiver && c.destChain == msg.DestChain && c.relayChain == msg.RealayChain && c.destContract == msg.DestContract)
+//@   ensures propagate:  (forall c in calls((Keeper).SendMtTransfer) :: c.err != nil ==> err != nil)
+//@   ensures done:       err == nil ==> called((Keeper).SendMtTransfer)
+//@   ensures badsender.noeffect: !called((Keeper).SendMtTransfer) ==> err != nil && mtBal == old(mtBal) && mtSupply == old(mtSupply) && tibc == old(tibc) && events == old(events)
